@@ -311,6 +311,20 @@ func (i *interpreter) runPath(fn *ssa.Function, w WorkItem) (res *PathResult, wo
 				v.Kind = "spurious-" + v.Kind
 			}
 		}
+		if v.Model != nil && !integralModel(v.Inputs, v.Model) {
+			// the real relaxation is satisfiable: look for a lattice witness
+			r, m := i.solver.Check(v.PC, true, true)
+			if r == Sat && m != nil {
+				v.Model = m
+			} else if r == Unsat {
+				v.Kind = "spurious-" + v.Kind
+			}
+		}
+	}
+	if ps.model != nil && res.Outcome == "ok" && !integralModel(ps.inputs, ps.model) {
+		if r, m := i.solver.Check(ps.pc, true, true); r == Sat && m != nil {
+			ps.model = m
+		}
 	}
 	if ps.model == nil && (res.Outcome == "ok" || res.Outcome == "panic") && len(ps.pc) > 0 {
 		if r, m := i.solver.Check(ps.pc, true, false); r == Sat {
@@ -353,6 +367,20 @@ func (i *interpreter) runPath(fn *ssa.Function, w WorkItem) (res *PathResult, wo
 	work = ps.newWork
 	i.ps = nil
 	return res, work
+}
+
+// integralModel: every lattice input has an integer value in m.
+func integralModel(inputs []InputDecl, m Model) bool {
+	for _, in := range inputs {
+		if in.Kind != "lattice" {
+			continue
+		}
+		v, ok := m[in.Var]
+		if ok && v.R != nil && !v.R.IsInt() {
+			return false
+		}
+	}
+	return true
 }
 
 func renderObserved(k types.BasicKind, conc value, v Val, real bool) string {
